@@ -347,4 +347,10 @@ theorem repaired_witnesses :
       = cs!"from pkg.mod_a import Outer\nfrom xml.etree.ElementTree import QName\n\n\nobj = Outer(\n    x=QName(\"{a\\\\b}\\\"x\")\n)\n" := by
   decide
 
+/-! ## the hypotheses of the theorems above are satisfiable (concrete non-trivial instances) -/
+
+-- code_rt_any_env: the hypothesis henv is satisfiable (by the import block's own namespace)
+example : EnvGood W1 (importsEnv W1 good) (render W1 good).refs :=
+  imports_sufficient W1 good (by decide) (by decide) (by decide)
+
 end Props.C18
